@@ -355,10 +355,47 @@ fn run_sessions(c: &Value) -> Value {
   json!({"rows": [[70, ok_all as u64, eq as u64, first[0].len() as u64, first[1].len() as u64]], "hs": ok_all})
 }
 
+/// Reflection: after `warm` messages each way (so that the victim's receive counter equals its send counter), the
+/// victim's NEXT record is played back into the victim's own incoming stream.
+/// rows: [[62, handshake ok, warm-up messages delivered (both ways), messages the victim delivered from its own
+///         record, victim reported an error, victim closed]]
+fn run_reflect(c: &Value) -> Value {
+  let (mut cl, mut sv) = mk_pair(c);
+  let ok = handshake(&mut cl, &mut sv);
+  if !ok {
+    return json!({"rows": [[62, 0, 0, 0, 0, 0]], "hs": false});
+  }
+  let victim_is_client = c.get("dir").and_then(|v| v.as_u64()).unwrap_or(0) == 0;
+  let warm = c.get("warm").and_then(|v| v.as_u64()).unwrap_or(0);
+  let mut warm_ok = 0u64;
+  let count = |out: &EngineOutput| out.app_actions.iter().filter(|a| matches!(a, AppAction::DeliverMessage(_))).count() as u64;
+  for i in 0..warm {
+    let o1 = cl.on_app_message(frames_of(&json!([{"len": 20, "seed": i}])));
+    let w1 = sends(&o1);
+    warm_ok += count(&sv.on_network_bytes(Bytes::from(w1)));
+    let o2 = sv.on_app_message(frames_of(&json!([{"len": 24, "seed": 100 + i}])));
+    let w2 = sends(&o2);
+    warm_ok += count(&cl.on_network_bytes(Bytes::from(w2)));
+  }
+  let victim = if victim_is_client { &mut cl } else { &mut sv };
+  let out = victim.on_app_message(frames_of(&c["msg"]));
+  let own = sends(&out);
+  let r = catch_unwind(AssertUnwindSafe(|| victim.on_network_bytes(Bytes::from(own))));
+  match r {
+    Ok(o) => {
+      let delivered = count(&o);
+      let err = o.app_actions.iter().any(|a| matches!(a, AppAction::PeerError(_))) as u64;
+      json!({"rows": [[62, 1, warm_ok, delivered, err, (victim.phase == ZmtpPhase::Closed) as u64]], "hs": true})
+    }
+    Err(_) => json!({"rows": [[62, 1, warm_ok, 0, 9, 1]], "hs": true}),
+  }
+}
+
 pub fn run_case(c: &Value) -> Value {
   match c["k"].as_str().unwrap() {
     "flow" => run_flow(c),
     "sessions" => run_sessions(c),
+    "reflect" => run_reflect(c),
     other => panic!("unknown C18 case kind {other}"),
   }
 }
